@@ -123,7 +123,8 @@ def _pw_cases(draw):
     s = draw(gen.score_sets(max_size=8, mag=1e300, easy=False))
     thr = draw(gen.shaped_thresholds(s["pos"] + s["neg"], shapes=gen.SHAPES_NONEMPTY, mag=1e300))
     lab = draw(st.sampled_from(["int", "str", "bool"]))
-    return dict(s=s, thr=thr, lab=lab, order=draw(st.integers(0, 10**6)))
+    return dict(s=s, thr=thr, lab=lab, order=draw(st.integers(0, 10**6)),
+                layout=draw(st.sampled_from(["1d", "1d", "2d-C", "2d-F-scores", "2d-F-labels", "2d-T-scores", "2d-F-both"])))
 
 
 def check_pointwise(case):
@@ -142,9 +143,26 @@ def check_pointwise(case):
     order = np.random.RandomState(case["order"]).permutation(n + m)
     labels_a = np.asarray([labels[i] for i in order]) if n + m else np.asarray([], dtype=int)
     scores_a = _arr([scores[i] for i in order], s["mode"])
+    # labels and scores as matrices (one row per session, say) whose memory layouts may differ:
+    # element [i, j] of the labels belongs to element [i, j] of the scores
+    layout = case.get("layout", "1d")
+    rows = 2 if (n + m) % 2 == 0 else 3 if (n + m) % 3 == 0 else 0
+    sample_shape = (n + m,)
+    if layout != "1d" and rows and n + m >= 4:
+        sample_shape = (rows, (n + m) // rows)
+        labels_a, scores_a = labels_a.reshape(sample_shape), scores_a.reshape(sample_shape)
+        if layout in ("2d-F-scores", "2d-F-both"):
+            scores_a = np.asfortranarray(scores_a)
+        if layout in ("2d-F-labels", "2d-F-both"):
+            labels_a = np.asfortranarray(labels_a)
+        if layout == "2d-T-scores":
+            scores_a = np.ascontiguousarray(scores_a.T).T  # a transposed view
+    else:
+        layout = "1d"
     for sc, ec in CONFIGS:
         pw = pointwise_cm(labels_a, scores_a, thr, score_class=sc, equal_class=ec, **kw)
-        require(pw.shape == (n + m,) + shape + (2, 2), "pw:shape", f"{pw.shape}")
+        require(pw.shape == sample_shape + shape + (2, 2), "pw:shape", f"{pw.shape}")
+        pw = pw.reshape((n + m,) + shape + (2, 2))
         require(pw.dtype == bool, "pw:dtype", str(pw.dtype))
         summed = pw.sum(axis=0).reshape(-1, 2, 2)
         for i, t in enumerate(flat):
@@ -165,7 +183,53 @@ def check_pointwise(case):
                 require(bool(pwf[k, i][cell]), "pw:cell",
                         lambda: f"sample {scores[idx]!r} pos={is_pos} t={t!r} {sc}/{ec}")
     nontrivial = bool(pos) and bool(neg) and _near(flat, scores)
-    return dict(nontrivial=nontrivial, labels=[f"lab:{case['lab']}"])
+    return dict(nontrivial=nontrivial, labels=[f"lab:{case['lab']}", f"layout:{layout}"])
+
+
+# ------------------------------------------------------------------ clause: big_integers
+_BASES = [2**53, 2**53 + 2**20, 2**60, 1_700_000_000_000_000_000, -(2**62), 2**63 - 8, -(2**63) + 8, 2**31, 10**15]
+
+
+@st.composite
+def _big_cases(draw):
+    """Integer scores (fixed-point values, time stamps, ids) beyond the exact range of float64,
+    neighbours 1 apart, with integer thresholds at and next to the scores."""
+    base = draw(st.sampled_from(_BASES))
+    n, m = draw(st.integers(0, 6)), draw(st.integers(0, 6))
+    offs = draw(st.lists(st.integers(-4, 4), min_size=n + m, max_size=n + m))
+    vals = [base + o for o in offs]
+    k = draw(st.integers(1, 6))
+    thr = [base + o for o in draw(st.lists(st.integers(-5, 5), min_size=k, max_size=k))]
+    ez = st.sampled_from([0, 0, 3])
+    return dict(pos=vals[:n], neg=vals[n:], thr=thr, ep=draw(ez), en=draw(ez),
+                dtype=draw(st.sampled_from(["int64", "int64", "uint64"])) if base > 0 else "int64",
+                scalar=draw(st.integers(0, k - 1)))
+
+
+def check_big(case):
+    from score_analysis import Scores
+
+    pos, neg, ep, en = case["pos"], case["neg"], case["ep"], case["en"]
+    dt = np.dtype(case["dtype"])
+    thr = np.asarray(case["thr"], dtype=dt)
+    for sc, ec in CONFIGS:
+        obj = Scores(np.asarray(pos, dtype=dt), np.asarray(neg, dtype=dt), nb_easy_pos=ep, nb_easy_neg=en,
+                     score_class=sc, equal_class=ec)
+        got = obj.cm(thr).matrix
+        for i, t in enumerate(case["thr"]):
+            ref = ref_cm(pos, neg, t, sc, ec, ep, en)  # Python integers: exact
+            g = tuple(int(x) for x in got[i].reshape(-1))
+            require(g == ref, "cm:count",
+                    lambda: f"config={sc}/{ec} {case['dtype']} scores pos={pos} neg={neg}, integer threshold {t}: "
+                            f"got tp,fn,fp,tn={g} expected {ref}")
+        if case["dtype"] == "uint64":
+            continue  # NumPy compares uint64 with a (signed) Python int through float64: not exact, not claimed
+        t = case["thr"][case["scalar"]]
+        g = tuple(int(x) for x in obj.cm(t).matrix.reshape(-1))  # a Python int
+        ref = ref_cm(pos, neg, t, sc, ec, ep, en)
+        require(g == ref, "cm:count", lambda: f"config={sc}/{ec} Python-int threshold {t}: got {g} expected {ref}")
+    near = any(abs(t - v) <= 1 for t in case["thr"] for v in pos + neg)
+    return dict(nontrivial=bool(pos) and bool(neg) and near, labels=[f"dtype:{case['dtype']}"])
 
 
 # ------------------------------------------------------------------ clause: enum_small
@@ -225,12 +289,14 @@ PROP = Prop(
                min_nontrivial=50, doc="Scores.cm and the six rates vs counting"),
         Clause("pointwise", check_pointwise, strategy=_pw_cases(), quick=400, thorough=8000,
                min_nontrivial=30, doc="pointwise_cm membership and its sum over samples"),
+        Clause("big_integers", check_big, strategy=_big_cases(), quick=150, thorough=3000, quick_shards=2,
+               min_nontrivial=50, doc="int64/uint64 scores beyond 2^53 with integer thresholds"),
         Clause("enum_small", check_enum, kind="enum", cases=_enum_cases, shards=16,
                quick_shards=2, min_nontrivial=10,
                doc="all order types of small score sets (exhaustive)"),
     ],
-    assumptions=["int-dtype scores are small integers (exact in float64)",
+    assumptions=["int-dtype scores are small integers (exact in float64) except in clause big_integers, where scores and thresholds are both integers and compared exactly",
                  "pointwise_cm with size-0 threshold axes is exercised under C10"],
 )
 
-RULE_EXTRA = ('score containers float64 / float32 / float16 / Python lists / one class int or float32 next to a float64 class / uint8-uint16-bool quantised scores; easy counts up to 2^40; thresholds as nested lists, Fortran-ordered arrays and float32/float16 arrays.')
+RULE_EXTRA = ('int64 / uint64 scores of magnitude 2^53..2^63 one unit apart with integer thresholds (array and Python int); pointwise_cm on 2-D label / score arrays of differing memory layout; score containers float64 / float32 / float16 / Python lists / one class int or float32 next to a float64 class / uint8-uint16-bool quantised scores; easy counts up to 2^40; thresholds as nested lists, Fortran-ordered arrays and float32/float16 arrays.')
